@@ -121,6 +121,7 @@ def check(case):
     mesh = case["mesh"]
     datas = []
     nchanged = 0
+    merges = 0
     with scratch_dir() as scratch:
         for im, mode in enumerate(case["modes"]):
             calcs = runhelp.make_calculators(names, case["calcs"]["Efermi"], has_AA)
@@ -130,14 +131,76 @@ def check(case):
                 raise Violation("iterations-saved", f"{len(cap.snapshots)} saved iterations for adpt_num_iter={case['niter']}")
             ch, _ = check_history(system, grid, calcs, res, cap, kw, irred)
             nchanged = max(nchanged, ch)
+            merges = max(merges, cap.global_merges)
             datas.append({k: np.array(v.data) for k, v in res.results.items()})
         for k in datas[0]:
             s = 1.0 + float(np.max(np.abs(datas[0][k])))
             if np.max(np.abs(datas[0][k] - datas[1][k])) > 1e-10 * s:
                 raise Violation("storage-modes-differ", f"{case['modes']} give different '{k}'")
     grp = len(system.pointgroup.symmetries)
-    return ok(nchanged >= 1, f"niter={case['niter']}", "irred" if irred else "full", f"group={grp}",
-              "+".join(sorted(case["modes"])), f"mesh={mesh}", case["g"]["model"]["lat"]["kind"])
+    nt = nchanged >= 1 and (merges >= 1 or not case.get("need_merge"))
+    return ok(nt, f"niter={case['niter']}", "irred" if irred else "full", f"group={grp}",
+              "+".join(sorted(case["modes"])), f"mesh={mesh}", case["g"]["model"]["lat"]["kind"],
+              "new-points-merged-across-parents" if merges else None)
+
+
+# symmetric refinement in which new points of DIFFERENT parents are symmetry equivalent and are merged by the global
+# exclude_equiv_points() (hexagonal / fcc / bcc / cubic groups), several iterations, results dumped to disk
+merge_st = st.fixed_dictionaries(dict(
+    g=runhelp.grid_case_st(max_div=2, max_fft=2, kinds=["hexagonal", "fcc", "bcc", "sc", "tetragonal"], max_wann=2),
+    calcs=runhelp.calcs_case_st(names=["ahc_int", "cumdos", "ohmic_sea", "dos"], max_calcs=2),
+    niter=st.integers(3, 6),
+    mesh=st.sampled_from([2, 2, 3]),
+    fac=st.integers(2, 3),
+    irred=st.just(True),
+    need_merge=st.just(True),
+    modes=st.sampled_from([["dump_results", "memory"], ["dump_results", "allow_restart"], ["allow_restart", "memory"]]),
+))
+
+
+# restart from an EARLIER iteration than the last one (documented use of restart_iteration): the K list read from disk
+# contains points created later, with zero weight; re-created children are absorbed by them
+earlier_st = st.fixed_dictionaries(dict(
+    g=runhelp.grid_case_st(max_div=2, max_fft=2),
+    # quantities that do not vanish by symmetry and >= 3 Fermi levels inside the bands: every refinement criterion
+    # (max, norm, norm of the derivative) then has a unique maximum, so the restarted run re-selects the points the
+    # first run refined and their re-created children are absorbed by the stored ones (nothing new to evaluate)
+    calcs=st.fixed_dictionaries(dict(
+        names=st.sampled_from([["cumdos", "ohmic_sea"], ["cumdos"], ["ohmic_sea", "cumdos_tetra"]]),
+        Efermi=st.sampled_from([[-0.41, -0.13, 0.15, 0.43], [-0.3, 0.1, 0.5], [-0.7, -0.35, 0.0, 0.35, 0.7]]))),
+    first=st.integers(1, 3),
+    back=st.sampled_from([1, 1, 2, 3, 0]),
+    more=st.integers(1, 3),
+    mesh=st.sampled_from(MESHES),
+    fac=st.integers(1, 3),
+    irred=st.booleans(),
+    mode=st.sampled_from(["allow_restart", "dump_results"]),
+))
+
+
+def check_restart_earlier(case):
+    import wannierberri as wb
+    model, system, grid = runhelp.build(case["g"])
+    has_AA = "AA" in model.mats
+    irred = case["irred"]
+    mesh = case["mesh"] if isinstance(case["mesh"], int) else list(case["mesh"])
+    first = case["first"]
+    r_it = max(0, first - case["back"])       # iteration to restart from: first, first-1, ... ,0
+    with scratch_dir() as scratch:
+        calcs = runhelp.make_calculators(case["calcs"]["names"], case["calcs"]["Efermi"], has_AA)
+        res, cap, kw = run_one(system, grid, calcs, scratch, "E", case, case["mode"], first, mesh, case["fac"], irred)
+        check_history(system, grid, calcs, res, cap, kw, irred, tagp="first-")
+        cap2 = runhelp.Capture()
+        kw2 = runhelp.run_kwargs(scratch, "E", adpt_num_iter=case["more"], adpt_mesh=mesh, adpt_fac=case["fac"],
+                                 use_irred_kpt=irred, symmetrize=irred, restart=True, restart_iteration=r_it,
+                                 **mode_kwargs(case["mode"]))
+        calcs2 = runhelp.make_calculators(case["calcs"]["names"], case["calcs"]["Efermi"], has_AA)
+        with runhelp.capture_run(cap2):
+            res2 = wb.run(system, grid, calcs2, **kw2)
+        ch, _ = check_history(system, grid, calcs2, res2, cap2, kw2, irred, tagp="restart-")
+        absorbed = any(s2["n"] == s1_n for s2, s1_n in zip(cap2.snapshots, [len(cap.K_list)] * len(cap2.snapshots)))
+    return ok(r_it < first and ch >= 1, f"restart_from={r_it}/{first}", "irred" if irred else "full", case["mode"],
+              "earlier" if r_it < first else "last", "no-new-point-in-some-iteration" if absorbed else None)
 
 
 deep_st = st.fixed_dictionaries(dict(
@@ -168,5 +231,7 @@ def check_deep(case):
 
 SUBS = [
     Sub("history", case_st, check, quick=48, thorough=640, budget_quick=70, budget_thorough=500),
+    Sub("merge", merge_st, check, quick=24, thorough=320, budget_quick=70, budget_thorough=500),
+    Sub("restart_earlier", earlier_st, check_restart_earlier, quick=24, thorough=320, budget_quick=70, budget_thorough=500),
     Sub("deep", deep_st, check_deep, quick=8, thorough=96, budget_quick=60, budget_thorough=400),
 ]
